@@ -10,7 +10,8 @@ response of a sub-proof (equal iff same link secret and same proof session), `su
 key pair that signed the credential a sub-proof was built from, `agg.bound` lists the sub-proofs
 hashed into the aggregated proof.
 
-`CLProofVerifier::new` registers `master_secret` as common attribute (the model calls
+`CLProofVerifier::new` registers `master_secret` as common attribute (fix commit "require all sub
+proofs of a presentation to share one link secret", finding F9 closed; the model calls
 `IdealCL.verify … true`), so link-secret equality is checked for every pair of sub-proofs.
 -/
 namespace AnonModel.VerifierW3C
